@@ -1,6 +1,7 @@
 //! avrosim — deterministic simulation with fault injection for serde_avro_fast.
 //! See /verif/DESIGN.md.
 
+mod apache;
 mod ast;
 mod capture;
 mod container;
